@@ -32,7 +32,8 @@ SPEC = {
              "dense co-iterators; (join) a free fibertree with its own per-level shapes, default and rank id "
              "joined to a tensor with different ones, then the tensor's attributes changed; (fiber) free fibers "
              "from Fiber.fromUncompressed / fromRandom and their splits / flattenings walked for containment. "
-             "Non-trivial = xform: the tensor stores >= 2 leaves and every step returned; lazy: the first operand "
+             "Non-trivial = xform: the tensor stores >= 2 leaves and at least one step returned and was judged; "
+             "lazy: the first operand "
              "is non-empty and the operands' active ranges differ; join: the fiber is non-empty and at least one "
              "own attribute differs from the rank's; fiber: non-empty. distinct = distinct case."),
     "shards": {"quick": 16, "thorough": 16},
@@ -72,7 +73,6 @@ SPEC = {
 }
 
 SPLITS = ["splitUniform", "splitNonUniform", "splitEqual", "splitUnEqual"]
-STYLES = ["tuple", "pair", "linear", "absolute", "relative"]
 LAZY_OPS = ["&", "|", "^", "-", "intersection", "leader-follower", "union", "prune", "<<", "<<lazy", "project",
             "coiterShape", "coiterShapeRef", "coiterActiveShape", "coiterActiveShapeRef", "coiterRangeShape",
             "coiterRangeShapeRef"]
@@ -245,16 +245,7 @@ def _legal_steps(rng, st, first):
     # ranges, which such coordinates are (by C08's definition of a partition's range) not inside
     for i in (plain if st["active_ok"] else []):
         kind = rng.choice(SPLITS)
-        p = {"rankid": st["ids"][i]} if rng.random() < 0.4 else {"depth": i}
-        if kind == "splitUniform":
-            p["arg"] = rng.randint(1, 4)
-        elif kind == "splitNonUniform":
-            ext = (st["shape"][i] if st["shape"] is not None else 6)
-            p["arg"] = [0] + sorted(rng.sample(range(1, max(2, ext) + 1), rng.randint(0, 2)))
-        elif kind == "splitEqual":
-            p["arg"] = rng.randint(1, 3)
-        else:
-            p["arg"] = [rng.randint(1, 2) for _ in range(rng.randint(1, 3))]
+        p = _split_params(rng, kind, i, st["ids"], st["shape"][i] if st["shape"] is not None else 6)
         r = rng.random()
         if r < 0.2:
             p["relative"] = True
@@ -351,7 +342,8 @@ def _sys_xform(rng):
     families = []
     for perm in itertools.permutations(range(3)):
         families.append((3, ("swizzle", perm)))
-    for perm in [(1, 2, 3, 0), (3, 0, 1, 2), (2, 3, 0, 1), (1, 0, 3, 2), (0, 2, 3, 1), (3, 2, 1, 0), (2, 0, 3, 1)]:
+    for perm in [(1, 2, 3, 0), (3, 0, 1, 2), (2, 3, 0, 1), (1, 0, 3, 2), (0, 2, 3, 1), (3, 2, 1, 0), (2, 0, 3, 1),
+                 (1, 2, 0, 3), (1, 0, 2, 3)]:
         families.append((4, ("swizzle", perm)))
     for d in range(3):
         families.append((4, ("swap", d)))
@@ -369,8 +361,9 @@ def _sys_xform(rng):
     for kind in SPLITS:
         for rel in (False, True):
             families.append((3, ("split-flatten", kind, rel, 1)))
-    families.append((3, ("flatten-flatten", "tuple")))
-    families.append((3, ("flatten-flatten", "pair")))
+    for style in ("tuple", "pair"):
+        families.append((3, ("flatten-flatten", style, 1)))     # [M, [K, N]] then [[M, K, N]]
+        families.append((3, ("flatten-flatten", style, 0)))     # [[M, K], N] then [[M, K, N]]
     for fam_i, (depth, fam) in enumerate(families):
         for a_i, (explicit, default, fmts, mutable) in enumerate(attr_cfgs):
             yield fam_i * len(attr_cfgs) + a_i, depth, fam, explicit, default, fmts, mutable
@@ -404,17 +397,18 @@ def _sys_case(rng, depth, fam, explicit, default, fmts, mutable):
         p["relative"] = rel
         steps = [[kind, p], ["flattenRanks", {"depth": d, "levels": 1, "style": "relative" if rel else "absolute"}]]
     else:
-        steps = [["flattenRanks", {"depth": 1, "levels": 1, "style": fam[1]}],
+        steps = [["flattenRanks", {"depth": fam[2], "levels": 1, "style": fam[1]}],
                  ["flattenRanks", {"depth": 0, "levels": 1, "style": fam[1]}]]
     return {"kind": "xform", "tensor": cfg, "steps": steps, "sys": True}
 
 
-def _split_params(rng, kind, d, ids):
-    p = {"rankid": ids[d]} if rng.random() < 0.4 else {"depth": d}
+def _split_params(rng, kind, d, ids, ext=5):
+    """Parameters of one split at depth d: by `depth=` or by `rankid=` (when ids are known), boundaries from 0."""
+    p = {"rankid": ids[d]} if ids is not None and rng.random() < 0.4 else {"depth": d}
     if kind == "splitUniform":
         p["arg"] = rng.randint(1, 4)
     elif kind == "splitNonUniform":
-        p["arg"] = [0] + sorted(rng.sample(range(1, 6), rng.randint(0, 2)))
+        p["arg"] = [0] + sorted(rng.sample(range(1, max(2, ext) + 1), rng.randint(0, 2)))
     elif kind == "splitEqual":
         p["arg"] = rng.randint(1, 3)
     else:
@@ -422,7 +416,7 @@ def _split_params(rng, kind, d, ids):
     return p
 
 
-def _fiber_cfg(rng, default, role="operand"):
+def _fiber_cfg(rng, default):
     ext = rng.randint(3, 10)
     vals = [v for v in gen.VALUES if v != default]
     spec = gen.rand_leaf_spec(rng, ext, rng.choice([0.4, 0.7, 1.0]), 0.1, default, vals)
@@ -510,15 +504,12 @@ def _fiber_case(rng):
         case["shape"] = [e + rng.choice([0, 2]) for e in ext] if ctor == "ctor-shape" else None
     ops = [None]
     for kind in SPLITS:
-        ops.append([kind, dict(_split_params(rng, kind, rng.randint(0, depth - 1), ["?"] * depth), depth=rng.randint(0, depth - 1))])
+        ops.append([kind, _split_params(rng, kind, rng.randint(0, depth - 1), None)])
     if depth >= 2:
         ops += [["flattenRanks", {"depth": 0, "levels": 1, "style": s}] for s in ("tuple", "pair")]
         ops.append(["flatten-unflatten", {}])
         ops.append(["swapRanks", {}])
-    op = rng.choice(ops)
-    if op and op[0] in SPLITS:
-        op[1].pop("rankid", None)
-    case["op"] = op
+    case["op"] = rng.choice(ops)
     return case
 
 
@@ -806,7 +797,7 @@ def _run_xform(case, mon):
         if not st["canonical"] and done < len(case["steps"]):
             mon.count("chains_cut_noncanonical")
             break
-    if nleaves >= 2 and done > 0 and good:
+    if nleaves >= 2 and done > 0:
         mon.nontrivial()
 
 
@@ -814,8 +805,8 @@ def _run_xform(case, mon):
 # lazy cases
 # ------------------------------------------------------------------------------------------
 def _build_fiber(mon, cfg):
-    """-> (fiber, declared) where declared = {'id', 'shape', 'active'} computed from the configuration
-    (None = not determined by the configuration; then the operand's own answer before the call is used)."""
+    """-> (fiber, declared, keep-alive) where declared = {'id', 'shape', 'active'} is computed from the
+    configuration alone (constructor arguments; for a split partition the partition interval clipped to the shape)."""
     d, spec, own, rid = cfg["default"], cfg["spec"], cfg["own"], cfg["rid"]
     present = [c for c, v in spec]
     top = (present[-1] + 1) if present else 0
